@@ -110,6 +110,7 @@ def run(tier):
         cc.repo_tests_phase(chk, PID, MINE, ["tests/sdk/circuit_test.py", "tests/qubit"])
     cc.trace_phase(chk, PID, "rewrites_ring", 2400 if th else 400, "rewrites", MINE, numeric=True)
     cc.trace_phase(chk, PID, "rewrites_float", 2400 if th else 320, "rewrites", MINE, numeric=False)
+    cc.trace_phase(chk, PID, "carried_groups_ring", 1600 if th else 320, "carried", MINE, numeric=True)
     chk.assumptions = ["TLC 1.8 + CommunityModules", "rewrites are specified by contract (transformation, heralds, input size preserved + structure "
                        "postconditions), not by transcribing the current algorithms; unpack_groups of a circuit with ancillas is bound to the recorded placement"]
     return chk.finish()
